@@ -15,6 +15,7 @@
 package server
 
 import (
+	"fmt"
 	"sort"
 	"strconv"
 	"time"
@@ -116,14 +117,19 @@ func (server *Server) Rename(conn *redis.Conn, key string, newkey string, opt re
 	if err != nil {
 		return nil, err
 	}
+	if _, ok := db.GetRecord(key); !ok {
+		return nil, fmt.Errorf("%w: %s", ErrNotFound, key)
+	}
 	if opt.NX {
 		if _, ok := db.GetRecord(newkey); ok {
 			return redis.NewIntegerMessage(0), nil
 		}
 	}
-	err = db.RenameRecord(key, newkey)
-	if err != nil {
-		return nil, err
+	if key != newkey {
+		err = db.RenameRecord(key, newkey)
+		if err != nil {
+			return nil, err
+		}
 	}
 	if opt.NX {
 		return redis.NewIntegerMessage(1), nil
